@@ -405,10 +405,12 @@ fn check_set_kind(i: &Input) -> String {
             let pos: usize = get(i, "pos").parse().unwrap_or(0);
             let big = Predicate { nodes: vec![Node { edge_start: 0, program_address: ContentAddress([0; 32]) }; nn], edges: vec![0; ne] };
             let r1 = essential_check::predicate::check(&big).is_ok();
+            let enc = big.encode().map(|it| it.count());
+            let size_ok = match &enc { Ok(n) => *n == big.encoded_size(), Err(_) => true };
             let mut preds = vec![Predicate { nodes: vec![], edges: vec![] }; np];
             if np > 0 { preds[pos] = big; }
             let r2 = essential_check::predicate::check_contract(&preds);
-            format!("result=ok\ncheck={r1}\ncontract={}\n", match r2 { Ok(()) => "ok".to_string(), Err(e) => format!("{e:?}") })
+            format!("result=ok\ncheck={r1}\ncontract={}\nencode={}\nencode_size_ok={size_ok}\n", match r2 { Ok(()) => "ok".to_string(), Err(e) => format!("{e:?}") }, enc.is_ok())
         }
         _ => {
             let set = SolutionSet { solutions: parse_solutions(get(i, "solutions")) };
